@@ -457,8 +457,10 @@ def main():
                 inconclusive.append("%s: harness panic: %s" % (st.name, err[-300:].replace("\n", " | ")))
             elif st.rc == 3:
                 inconclusive.append("%s: harness reported an internal error: %s" % (st.name, err[-400:].replace("\n", " | ")))
-            elif st.rc in (-9, 137) or "memory allocation of" in err:
-                inconclusive.append("%s: killed / out of memory (rc=%s)" % (st.name, st.rc))
+            elif st.rc in (-9, 137, -15, 143, -2, 130, -1, 129) or "memory allocation of" in err:
+                # SIGKILL / SIGTERM / SIGINT / SIGHUP come from outside the process (OOM killer, an operator, a
+                # supervising shell): nothing the code under test did
+                inconclusive.append("%s: killed from outside / out of memory (rc=%s)" % (st.name, st.rc))
             else:
                 # abnormal death of the real code under a legal program: abort, SIGSEGV, panic escaping the harness
                 tail = (err[-1500:] or out[-1500:])
